@@ -143,6 +143,10 @@ def sec_couplings(rep):
     for mode in MODES:
         rep.cases += 1
         rep.check(f"C02/propagator_factor/post/{mode}", lambda sy, mode=mode: (H.coupling_constants(sy, "NC", "electron").propagator_factor(mode, sy.Q2), spec_propagator(mode, sy)), sy, pre, sides=True)
+        # float companion: from Q2 -> 0 (eta ~ Q2/MZ2) to Q2 >> MZ2, small and large corrections
+        basev = dict(s2w=0.23121, MZ2=8315.178, MW2=6463.8, pol=0.0, pcorr=0.0)
+        envs = [dict(basev, Q2=q, pcorr=pc) for q in (1e-6, 1.0, 8315.178, 1e8) for pc in (0.0, 0.0361)]
+        rep.float_companion(f"C02/propagator_factor/{mode}", lambda sy, mode=mode: [("eta", H.coupling_constants(sy, "NC", "electron").propagator_factor(mode, sy.Q2), spec_propagator(mode, sy))], sy, pre, envs, rtol=1e-12)
     rep.check("C02/propagator_factor/unknown-mode", lambda sy: (H.coupling_constants(sy, "NC", "electron").propagator_factor("XX", sy.Q2), None), sy, pre, exc_ok=lambda p: isinstance(p.exc, ValueError))
 
     # NOTE: the photon-Z interference modes ("phZ", "Zph") of the fl11 class are NOT given a
@@ -291,6 +295,44 @@ def sec_ckm(rep):
                     ]
 
                 rep.check(f"C02/from_dict/post/{proj}/MW={'given' if mw else 'default'}/ckm={ckm_in}", case_fd, sy2, [Not(Eq(sy2.SIN2TW, 1))])
+    # concrete spellings a symbol cannot stand for: falsy but legal values (0, 0.0, False-like), ints,
+    # numpy scalars, optional keys absent / None -- the stored configuration is the given value or the
+    # documented default, never a default substituted for a legal zero
+    import numpy as _np
+
+    for proj, pid in H.PROJECTILES.items():
+        for pol in (0, 0.0, -1, 1.0, _np.float64(0.0), 0.4):
+            for pcorr in (0, 0.0, 0.05):
+                rep.cases += 1
+                th = dict(MZ=91.1876, SIN2TW=0.23121, MW=80.398, CKM=s)
+                ob = dict(prDIS="NC", ProjectileDIS=proj, PolarizationDIS=pol, PropagatorCorrection=pcorr, NCPositivityCharge=None)
+                try:
+                    c = CC.from_dict(th, ob)
+                    ok = c.obs_config["polarization"] == pol and c.obs_config["propagatorCorrection"] == pcorr and c.obs_config["projectilePID"] == pid and abs(c.theory_config["MZ2"] - 91.1876**2) < 1e-9 and abs(c.theory_config["MW2"] - 80.398**2) < 1e-9
+                    detail = str({k: c.obs_config[k] for k in ("polarization", "propagatorCorrection", "projectilePID")})
+                except Exception as e:  # noqa
+                    ok, detail = False, repr(e)
+                rep.add(ob_eval(f"C02/from_dict/concrete/{proj}/PolarizationDIS={pol!r}/PropagatorCorrection={pcorr!r}: stored as given", ok, detail=detail, inputs={} if ok else {"PolarizationDIS": repr(pol), "PropagatorCorrection": repr(pcorr), "observed": detail}))
+    for missing in ((), ("MZ",), ("SIN2TW",), ("MW",), ("MZ", "SIN2TW", "MW")):
+        for as_none in (False, True):
+            rep.cases += 1
+            th = dict(MZ=90.0, SIN2TW=0.25, MW=79.0, CKM=s)
+            for k in missing:
+                if as_none and k == "MW":
+                    th[k] = None
+                elif not as_none:
+                    del th[k]
+            ob = dict(prDIS="NC", ProjectileDIS="electron", PolarizationDIS=0.0, PropagatorCorrection=0.0, NCPositivityCharge=None)
+            try:
+                c = CC.from_dict(th, ob)
+                mz = th.get("MZ", 91.1876)
+                s2 = th.get("SIN2TW", 0.23121)
+                mw2 = th["MW"] ** 2 if th.get("MW") is not None else mz**2 / (1 - s2)
+                ok = abs(c.theory_config["MZ2"] - mz**2) < 1e-9 and abs(c.theory_config["sin2theta_weak"] - s2) < 1e-15 and abs(c.theory_config["MW2"] - mw2) < 1e-9
+                detail = str({k: float(c.theory_config[k]) for k in ("MZ2", "MW2", "sin2theta_weak")})
+            except Exception as e:  # noqa
+                ok, detail = False, repr(e)
+            rep.add(ob_eval(f"C02/from_dict/concrete/optional keys {missing or 'all given'} {'None' if as_none else 'absent'}: given value or documented default (MZ 91.1876, SIN2TW 0.23121, MW from MZ and SIN2TW)", ok, detail=detail, inputs={} if ok else {"missing": str(missing), "observed": detail}))
     rep.check(
         "C02/from_dict/unknown-projectile",
         lambda sy: (CC.from_dict(dict(CKM=s), dict(prDIS="NC", ProjectileDIS="muon", PolarizationDIS=0, PropagatorCorrection=0, NCPositivityCharge=None)), None),
